@@ -100,6 +100,13 @@ class NodePeer:
         if action == '*IDN?':
             send(IDENT)
             return
+        if action in ('describe', 'activate') and w.window and w.handshake_drop == action:
+            # the peer goes away in the middle of the client's connect handshake
+            w.handshake_drop = None
+            w.drops.append(w.sched.now)
+            w.events.append(('peer-dropped-during', action, w.sched.now))
+            sock.peer_close()
+            return
         if action == 'describe':
             send(('describing . ' + json.dumps(DESCRIPTION) + '\n').encode())
             return
@@ -168,6 +175,7 @@ class World:
         self.accept_reconnect = False
         self.scripted = {}
         self.periodic = True
+        self.handshake_drop = None
 
 
 def execute(case, prefix):
@@ -184,6 +192,7 @@ def execute(case, prefix):
     world.scripted = {int(k): v for k, v in (case.get('scripted') or {}).items()}
     # a peer that stalls in the middle of a line sends nothing else meanwhile: no pre-scheduled periodic updates in those cases
     world.periodic = 'split-slow' not in world.scripted.values()
+    world.handshake_drop = case.get('handshake_drop')
     net.listen('node', 10767, lambda: NodePeer(world))
     out = {'results': {}, 'disconnect': None, 'retry': {}}
 
@@ -199,7 +208,8 @@ def execute(case, prefix):
             out['clears'].append(getattr(t, 'name', '?').split(':')[-1])
             orig_clear()
         ev.clear = clear
-        client.connect()
+        if not case.get('handshake_drop'):
+            client.connect()
         world.window = True
         sched.begin()
 
@@ -209,7 +219,11 @@ def execute(case, prefix):
                     schedx.vsleep(case['delays'][i])
                 t0 = sched.now
                 try:
-                    rep = client.request(*req)
+                    if req[0] == '@connect':        # the caller establishes the connection itself (inside the explored window)
+                        client.connect()
+                        rep = ('connected', None, None)
+                    else:
+                        rep = client.request(*req)
                     out['results'][i] = ('reply', list(rep), t0, sched.now)
                 except Exception as e:          # noqa
                     out['results'][i] = ('exc', type(e).__name__, str(e)[:80], t0, sched.now)
@@ -294,6 +308,11 @@ def judge(case, sched, x, world, out):
         if t1 - t0 > 14.0 + 1e-6:
             viol.append(('caller-waited-longer-than-timeout', f'caller {i} {req} waited {t1 - t0:g} s'))
         mine = peer_got.get((req[0], req[1], json.dumps(req[2])), [])
+        if req[0] == '@connect':
+            if res[0] == 'exc' and res[1] == 'TimeoutError' and world.drops and t1 > world.drops[0] + 2.0 + 1e-6:
+                viol.append(('connect-not-released-after-link-loss-in-handshake',
+                             f'connect() ended with TimeoutError {t1 - world.drops[0]:g} s after the peer dropped the link during the handshake'))
+            continue
         if res[0] == 'reply':
             action, ident, data = res[1]
             # the reply must be one the peer produced for an identical request, and not handed out twice
@@ -327,6 +346,10 @@ def judge(case, sched, x, world, out):
                                                    f'(peer got {[(e[1], e[2], e[3]) for e in world.events if e[0] == "peer-got"]})'))
             elif exc == 'TimeoutError' and mine and not disturbed and all_prompt:
                 viol.append(('answered-request-timed-out', f'caller {i} {req} timed out although the peer answered it ({answers})'))
+            elif exc == 'ConnectionError' and mine and not disturbed and all_prompt and not case.get('reconnect'):
+                # the link was never lost or shut down and the peer answered: a connection error is not the caller's own reply
+                viol.append(('answered-request-failed-with-connection-error-on-a-healthy-link',
+                             f'caller {i} {req} got ConnectionError({res[2]!r}) although the link was up and the peer answered it ({answers})'))
             elif exc == 'TimeoutError' and mine and not disturbed and len(mine) == 1 and answers == ['now'] and \
                     [e[5] for e in world.events if e[0] == 'peer-got' and e[1] == mine[0]][0] <= t0 + TIMEOUT - 2.0:
                 # the peer answered this very request at once, well before the caller's time-out (whatever happened to
@@ -381,6 +404,10 @@ def cases(tier):
     # 5 s later) is parked behind it: the second caller's request is answered at once and must get its reply
     res.append({'name': 'same-change/late-first', 'callers': CALLERS['same-change'], 'delays': [0.0, 5.0], 'scripted': {1: 'at-timeout'},
                 'shutdown': 'none', 'level': 'sync', 'bound': 2 if quick else 3, 'dev': 0, 'total': None, 'free': free, 'nanswers': nans})
+    # the peer drops the link in the middle of the connect handshake (the caller connects inside the explored window)
+    for act in ('describe', 'activate'):
+        res.append({'name': f'connect/drop-during-{act}', 'callers': [['@connect', None, None]], 'handshake_drop': act, 'shutdown': 'none',
+                    'level': 'sync', 'bound': 1 if quick else 2, 'dev': 0, 'total': None, 'free': free, 'nanswers': nans})
     # a reply arriving in two segments with a pause longer than the receive granularity
     for cname in ('same-read', 'distinct-read'):
         res.append({'name': f'{cname}/split-slow', 'callers': CALLERS[cname], 'scripted': {1: 'split-slow'}, 'shutdown': 'none', 'level': 'sync',
@@ -408,7 +435,7 @@ def set_trace(case):
     import frappy.client as C
     if case['level'] == 'line':
         S = C.SecopClient
-        schedx.trace_lines([S._SecopClient__txthread, S.get_reply, S.queue_request, S.disconnect])
+        schedx.trace_lines([S._SecopClient__txthread, S._SecopClient__rxthread, S.get_reply, S.queue_request, S.disconnect])
     else:
         schedx.untrace_all()
 
